@@ -105,6 +105,13 @@ def main():
     except ValueError:
         seed = 0
     ctx = Ctx(prop, tier, seed)
+    # replay files of earlier runs of this check with this seed are stale now
+    import glob
+    for old in glob.glob(os.path.join(common.VERIF, "replays", "%s-%d-*.json" % (prop, seed))):
+        try:
+            os.remove(old)
+        except OSError:
+            pass
     mod = importlib.import_module("props." + prop.lower())
     viol = []
     try:
